@@ -79,18 +79,20 @@ add('C15', 'proof', 'Lean 4 theorems (all sizes, all ordered pairs) about execut
     'property evaluated directly on the real code for every pair.',
     TB + 'Modelled rather than verified: planar/_planarcode.py, _planarpauli.py, toric/_toriccode.py, _toricpauli.py, '
     'rotatedtoric/_rotatedtoriccode.py, _rotatedtoricpauli.py and the decoders\' distance functions.')
-add('C07', 'proof', 'Lean 4 theorems (ValidCode for all R,C; basic codes by kernel evaluation) + all-sizes-up-to-bound matrix correspondence and direct rank/commutation monitors',
-    'A generic, dimension-theory-free definition ValidCode n k S Lx Lz (row lengths, commutation, canonical pairing, rank n-k '
-    'as an independent spanning sub-family, logical independence) with independence-from-destabiliser and '
-    'independence-from-pairing lemmas; proved for the planar family for ALL R, C >= 2 (flatten bijection onto [0,n), n and '
-    'stabilizer count formulas, commutation, pairing, rank via explicit destabilisers, constructor domain over a Python value '
-    'universe, site/plaquette read-back) and for the five-qubit and Steane codes by kernel evaluation. For the toric, '
-    'rotated-planar, rotated-toric and colour 6.6.6 families the theorems are not yet proved: there the claim rests on the '
-    'explored part — exact equality of stabilizers / logicals / n_k_d / index maps / constructor outcomes with the executable '
-    'Lean models for every size up to the bound, and C07 itself (commutation, pairing, GF(2) rank n-k by elimination, logical '
-    'independence) evaluated directly on the real matrices for every such size.',
+add('C07', 'proof', 'Lean 4 theorems (ValidCode for ALL sizes of the planar, toric, rotated-toric and rotated-planar families; basic codes by kernel evaluation) + all-sizes-up-to-bound matrix correspondence and direct rank/commutation monitors',
+    'A generic, dimension-theory-free definition ValidCode n k S Lx Lz (row lengths, pairwise commutation, canonical '
+    'pairing, rank n-k as an independent spanning sub-family, logical independence) with independence-from-destabiliser '
+    'and independence-from-pairing lemmas; proved for ALL accepted sizes of the planar (R,C>=2), toric (R,C>=2, k=2), '
+    'rotated-toric (even R,C>=2, k=2) and rotated-planar (R,C>=3) families — flatten bijection onto [0,n), n and stabilizer '
+    'count formulas, commutation, pairing, rank via explicit destabilisers (paths / runs to a reference plaquette or '
+    'boundary) and explicit dependencies (each site lies in exactly two plaquettes of a type on the tori), constructor '
+    'domain over a Python value universe, site/plaquette read-back — and for the five-qubit and Steane codes by kernel '
+    'evaluation: 69 theorems. For the colour 6.6.6 family the all-sizes theorems are in progress; there the claim rests on '
+    'the explored part. Explored for every family: exact equality of stabilizers / logicals / n_k_d / index maps / '
+    'constructor outcomes with the executable Lean models for every size up to the bound, and C07 itself (commutation, '
+    'pairing, GF(2) rank n-k by elimination, logical independence) evaluated directly on the real matrices.',
     TB + 'Modelled rather than verified: the code and pauli classes of all five lattice families and models/basic.py. '
-    'Only planar + basic codes have the all-sizes theorem; other families are bounded exploration (evidence: explored).')
+    'Colour 6.6.6 has no all-sizes theorem yet (bounded exploration; evidence: explored).')
 add('C13', 'proof', 'Lean 4 theorems about the graph wrapper and a verified exact minimum-weight-perfect-matching oracle + real mwpm output checked against the oracle',
     'SimpleGraph.add_edge (no pair in both orientations, last write wins), the networkx wrapper (empty graph, weight negation, '
     'max-cardinality: among perfect matchings maximising the negated weight = minimising the weight; with a perfect matching '
@@ -150,6 +152,31 @@ add('C14', 'proof', 'Lean 4 theorems about the naive decoder (min weight, correc
     'explored part: every error with |X|,|Z| <= t on planar and toric 2x2..4x5 (exhaustive) and samples to 7x7 through the '
     'real decoders, verdict confirmed by the Lean driver and a span certificate.',
     TB + 'networkx matching inside the decoders is not modelled (see C13).')
+
+add('C08', 'other', 'Lean-verified exhaustive CSS-split search (soundness + CSS-completeness theorems) run on the real matrices; all-sizes theorems for attainment and logical weights; kernel-evaluated IsDistance for small sizes',
+    'Theorems (26): the CSS split (the X- or Z-part of any non-trivial logical of a CSS code is itself one, of no larger '
+    'weight), soundness and completeness of the executable search (none => no Pauli of weight < d is a non-trivial logical), '
+    'certificate soundness, closed-form weights of every supplied logical and attainment of d for all sizes of all five '
+    'families (C07 commutation/pairing as hypotheses), IsDistance for the five-qubit and Steane codes and for the smallest '
+    'lattices by kernel evaluation. The lower bound "no lighter logical" for a general size is NOT a theorem (the '
+    'disjoint-translates argument is stated only): it is decided per size by running the verified search through the '
+    'compiled driver on the REAL stabilizer / logical matrices (with a stabilizer-derived basis of N(S)/S, so a missing '
+    'generator is detected too) and by an independent numpy search on larger sizes — exhaustive per code size, recorded in '
+    'the evidence; n_k_d is compared with the model for all sizes up to the bound incl. rectangles.',
+    TB + 'The distance lower bound for sizes beyond the searched ones is not established; normaliser completeness is a '
+    'hypothesis of the span-form corollary.')
+add('C10', 'proof', 'Lean 4 theorems about the coset-probability specification (partition, sample independence, ML optimality) + exact-rational vs float comparison of every coset probability of the real decoders',
+    'Spec side proved for any code satisfying a named CodeSpec (independent generators, commutation, normaliser = <S,L>): the '
+    'span enumeration is exact and duplicate-free, the syndrome class is the disjoint union of the 4^k cosets so coset '
+    'probabilities sum to Pr(syndrome), another sample permutes cosets, returning an arg-max coset is optimal among all '
+    'functions of the syndrome and the decoders\' own rule does so, the Y-decoder quantity equals the coset probability under '
+    'pure-Y noise — 13 theorems over any ordered commutative semiring. That the real tensor-network contraction computes '
+    'these numbers is NOT proved (no Lean network model; float/mpf arithmetic): on every run each coset probability returned '
+    'by the real untruncated decoders (planar MPS/RMPS/Y, rotated planar MPS/RMPS, colour 6.6.6 MPS; modes c/r/a) is compared '
+    'with the exact rational value from the Lean driver within 1e-11 relative, and the decoded class with the exact arg-max '
+    'where the gap exceeds 1e-9; all syndromes for the smallest codes, sampled above.',
+    TB + 'Exactness of the contraction is bounded on explored inputs only (worst relative deviation observed 2e-14); '
+    'CodeSpec.h_norm is assumed (C07 supplies independence and commutation).')
 
 NOT_YET = {}
 
